@@ -4,7 +4,13 @@
 def ty_src(t):
     if isinstance(t, list):
         return "Optional[%s]" % ty_src(t[1])
-    return {"int": "int", "str": "str", "bool": "bool", "list": "List[int]"}[t]
+    return {"int": "int", "str": "str", "bool": "bool", "list": "List[int]", "data": "Point"}[t]
+
+
+def val_src(v):
+    if isinstance(v, dict):
+        return "Point(x=%r, y=%r)" % (v["x"], v["y"])
+    return repr(v)
 
 
 def sig_src(sig, method):
@@ -16,7 +22,7 @@ def sig_src(sig, method):
             star = True
         s = "%s: %s" % (p["n"], ty_src(p["ty"]))
         if p["d"] is not None:
-            s += " = %r" % (p["d"]["v"],)
+            s += " = %s" % val_src(p["d"]["v"])
         parts.append(s)
     return ", ".join(parts)
 
@@ -49,8 +55,13 @@ def comp_expr(c):
 
 
 def program_src(comps):
-    out = ["from typing import List, Optional\n", "LOG = []\n",
-           "def _rec(name, args):\n    LOG.append([name, args])\n    return ['R', len(LOG) - 1]\n"]
+    out = ["from dataclasses import dataclass\nfrom typing import List, Optional\n", "LOG = []\n",
+           "@dataclass\nclass Point:\n    x: int = 0\n    y: int = 0\n",
+           "def _canon(v):\n"
+           "    if type(v) is Point:\n        return {'x': v.x, 'y': v.y}\n"
+           "    if v is None or type(v) in (int, str, bool) or (type(v) is list and all(type(i) is int for i in v)):\n        return v\n"
+           "    return {'__other__': type(v).__name__}\n",
+           "def _rec(name, args):\n    LOG.append([name, [[k, _canon(v)] for k, v in args]])\n    return ['R', len(LOG) - 1]\n"]
     if comps["form"] == "one":
         comp_src(comps["c"], out, None)
         expr = comp_expr(comps["c"])
